@@ -96,6 +96,13 @@ def run(res, tier, seed):
             bad = oracle_case(res, ast, d1, d2, rng)
             if bad:
                 res.violation("oracle", bad["problem"] + f" on {m!r} d1={d1} d2={d2}", bad)
+            if names_comp and len(cases) % 2 == 0:
+                # the further interpretation is a whole catalogue: dozens of items this model does not mention
+                d2c = dict(d2); d2c.update({f"cat{j:03d}": ((j * 7 + len(cases)) % 2,) * 2 for j in range(70)})
+                res.count("catalogue_sized_interpretation")
+                bad = oracle_case(res, ast, d1, d2c, rng)
+                if bad:
+                    res.violation("oracle", bad["problem"] + f" on {m!r} d1={d1} d2={d2} + 70 items the model does not mention", bad)
             if d1 and d2 and not names_comp:
                 res.count("grown_dictionary_history")
                 bad = grown_case(res, ast, d1, d2)
